@@ -6,14 +6,22 @@ package aaa
 // handleSessionRestored, ProcessAccountingBucket, loadAcctSessions, pruneOrphanedAcctEntries)
 // with a recording auth provider, an in-memory opdb and a scripted stats snapshot.
 //
-// case line:   S <k> {<id>:<bucket>:<type>}  <op> <op> ...
+// case line:   S|Sr <k> {<id>:<bucket>:<type>}  <op> <op> ...        (Sr = routed to the -race build of this harness)
 //   A,<i>,<ifx>            lifecycle event, state active, session i
 //   R,<i>,<ifx>            restored event
 //   X,<i>,<snap>           lifecycle event, state released
 //   T,<bucket>,<failmask>,<snap>   ProcessAccountingBucket(bucket); sessions in failmask get an error from UpdateAccounting
 //   B                      restart: new component over the same opdb, loadAcctSessions
 //   P,<0|1>                pruneOrphanedAcctEntries(now [+10 min])
-//   snap: "-" snapshot unavailable, "e" empty, else idx:rxb:txb:rxp:txp joined by "+"
+//   C/<snap>/<m>/<m>...    the notifications m (A,i,ifx  R,i,ifx  X,i  T,bucket,mask) are delivered CONCURRENTLY, one
+//                          goroutine each, sharing one snapshot; the stats source blocks every handler that reads it
+//                          until all handlers of the group have reached it or returned (forced overlap).  A group of
+//                          X and at most one T has a schedule-independent outcome (compared exactly, calls sorted);
+//                          a group that also has A / R must be the last op and is judged by what every interleaving
+//                          must satisfy ({ok} / {BAD ...}).  Histories with a group are run 5 times and must agree.
+//   snap: "-" snapshot unavailable, "e" empty, else idx:rxb:txb:rxp:txp joined by "+"; optionally followed by
+//         "|" and the l2gw stats segment: "-" unavailable (default), "e" empty, else idx:bytes:packets joined by "+"
+//   session type i = IPoE, p = PPPoE, g = l2gw (A/R then carry a 4th field: the handoff entry index)
 // output line: one [...] group per op listing the provider calls it caused (sorted by session), then "; " and a
 // dump of cache / bucket / opdb state per session.
 
@@ -143,9 +151,49 @@ type vf09Show struct {
 	mu     sync.Mutex
 	result []southbound.InterfaceStats
 	err    error
+	gate   *vf09Gate
+}
+
+// vf09Gate forces the overlap of concurrently delivered notifications: every handler that reads the stats
+// snapshot blocks there until each of the n handlers of the group has either reached the snapshot too or has
+// returned.  Nothing is left to the scheduler: a handler that decides (looks the session up) before the snapshot
+// and acts (deletes it) after it is guaranteed to overlap with its duplicates.
+type vf09Gate struct {
+	mu       sync.Mutex
+	n, seen  int
+	open     chan struct{}
+	opened   bool
+	timedOut bool
+}
+
+func (g *vf09Gate) step() {
+	g.mu.Lock()
+	g.seen++
+	if g.seen >= g.n && !g.opened {
+		g.opened = true
+		close(g.open)
+	}
+	g.mu.Unlock()
+}
+
+func (g *vf09Gate) arrive() {
+	g.step()
+	select {
+	case <-g.open:
+	case <-time.After(3 * time.Second):
+		g.mu.Lock()
+		g.timedOut = true
+		g.mu.Unlock()
+	}
 }
 
 func (s *vf09Show) Snapshot(_ context.Context, path string) (any, error) {
+	s.mu.Lock()
+	g := s.gate
+	s.mu.Unlock()
+	if g != nil {
+		g.arrive()
+	}
 	s.mu.Lock()
 	defer s.mu.Unlock()
 	if path != paths.SystemDataplaneInterfaces.String() {
@@ -155,6 +203,21 @@ func (s *vf09Show) Snapshot(_ context.Context, path string) (any, error) {
 		return nil, s.err
 	}
 	return append([]southbound.InterfaceStats(nil), s.result...), nil
+}
+
+// setSnap installs what the dataplane shows: "<interface table>" or "<interface table>|<l2gw segment>".
+func (w *vf09World) setSnap(tok string) error {
+	p := strings.Split(tok, "|")
+	if len(p) > 2 {
+		return errors.New("bad snapshot")
+	}
+	if err := w.ss.set(p[0]); err != nil {
+		return err
+	}
+	if len(p) == 2 {
+		return w.vpp.set(p[1])
+	}
+	return w.vpp.set("-")
 }
 
 func (s *vf09Show) set(tok string) error {
@@ -183,6 +246,56 @@ func (s *vf09Show) set(tok string) error {
 			v[i] = x
 		}
 		s.result = append(s.result, southbound.InterfaceStats{Index: uint32(v[0]), RxBytes: v[1], TxBytes: v[2], Rx: v[3], Tx: v[4]})
+	}
+	return nil
+}
+
+// vf09VPP is the southbound as far as AAA uses it: the l2gw stats segment.
+type vf09VPP struct {
+	southbound.Southbound // nil: any other call would panic (and be reported)
+	mu                    sync.Mutex
+	stats                 map[uint32]southbound.L2GWEntryStats
+	err                   error
+}
+
+func (v *vf09VPP) GetL2GWStats() (map[uint32]southbound.L2GWEntryStats, error) {
+	v.mu.Lock()
+	defer v.mu.Unlock()
+	if v.err != nil {
+		return nil, v.err
+	}
+	m := make(map[uint32]southbound.L2GWEntryStats, len(v.stats))
+	for k, x := range v.stats {
+		m[k] = x
+	}
+	return m, nil
+}
+
+func (v *vf09VPP) set(tok string) error {
+	v.mu.Lock()
+	defer v.mu.Unlock()
+	v.stats, v.err = map[uint32]southbound.L2GWEntryStats{}, nil
+	switch tok {
+	case "-":
+		v.err = errors.New("l2gw stats unavailable")
+		return nil
+	case "e":
+		return nil
+	}
+	for _, it := range strings.Split(tok, "+") {
+		f := strings.Split(it, ":")
+		if len(f) != 3 {
+			return fmt.Errorf("bad l2gw item %q", it)
+		}
+		var x [3]uint64
+		for i := range f {
+			n, err := strconv.ParseUint(f[i], 10, 64)
+			if err != nil {
+				return err
+			}
+			x[i] = n
+		}
+		v.stats[uint32(x[0])] = southbound.L2GWEntryStats{Bytes: x[1], Packets: x[2]}
 	}
 	return nil
 }
@@ -256,6 +369,7 @@ type vf09World struct {
 	ap    *vf09Provider
 	db    *vf09Store
 	ss    *vf09Show
+	vpp   *vf09VPP
 	c     *Component
 	sess  []vf09Sess
 	bases []*component.Base
@@ -270,14 +384,19 @@ func (w *vf09World) newComponent() {
 		logger:       logger.NewTest(),
 		authProvider: w.ap,
 		showSource:   w.ss,
+		vpp:          w.vpp,
 		opdb:         w.db,
 		buckets:      make(map[int][]string),
 		acctCache:    make(map[string]*AccountingSession),
 	}
 }
 
-func (w *vf09World) payload(i int, ifx uint32, st models.SessionState) models.SubscriberSession {
+func (w *vf09World) payload(i int, ifx, hfx uint32, st models.SessionState) models.SubscriberSession {
 	s := w.sess[i]
+	if s.typ == models.AccessTypeL2GW {
+		return &models.L2GWSession{SessionID: s.id, State: st, MAC: s.mac, AccessEntryIndex: ifx, HandoffEntryIndex: hfx,
+			Username: "u" + s.id, AAASessionID: "acct-" + s.id, OuterVLAN: 100, InnerVLAN: 7, AccessIfIndex: 3}
+	}
 	if s.typ == models.AccessTypePPPoE {
 		return &models.PPPSession{SessionID: s.id, State: st, MAC: s.mac, IfIndex: ifx, Username: "u" + s.id,
 			AAASessionID: "acct-" + s.id, OuterVLAN: 100, InnerVLAN: 7, AccessIfIndex: 3, IPv4Address: net.IPv4(10, 0, 0, byte(i+1))}
@@ -336,7 +455,7 @@ func (w *vf09World) dump() string {
 			if e.pendingSessionConfirm {
 				pend = 1
 			}
-			p += fmt.Sprintf(",c1,p%d,x%d,L%s,P%s,B%s", pend, e.swIfIndex,
+			p += fmt.Sprintf(",c1,p%d,x%d,h%d,L%s,P%s,B%s", pend, e.swIfIndex, e.l2gwHandoffIndex,
 				vf09C4(e.lastReportedInOctets, e.lastReportedOutOctets, e.lastReportedInPackets, e.lastReportedOutPackets),
 				vf09C4(e.priorDeltaInBytes, e.priorDeltaOutBytes, e.priorDeltaInPackets, e.priorDeltaOutPackets),
 				vf09C4(e.currentBaselineInBytes, e.currentBaselineOutBytes, e.currentBaselineInPackets, e.currentBaselineOutPackets))
@@ -385,14 +504,15 @@ func vf09RunCase(line string, g0 int) (res string) {
 		}
 	}()
 	f := strings.Fields(line)
-	if len(f) < 2 || f[0] != "S" {
+	if len(f) < 2 || (f[0] != "S" && f[0] != "Sr") { // "Sr": same history, routed to the -race build
 		return "badline"
 	}
 	k, err := strconv.Atoi(f[1])
 	if err != nil || len(f) < 2+k {
 		return "badline"
 	}
-	w = &vf09World{ap: &vf09Provider{fail: map[string]bool{}}, db: &vf09Store{m: map[string]map[string][]byte{}}, ss: &vf09Show{}}
+	w = &vf09World{ap: &vf09Provider{fail: map[string]bool{}}, db: &vf09Store{m: map[string]map[string][]byte{}}, ss: &vf09Show{},
+		vpp: &vf09VPP{err: errors.New("l2gw stats unavailable")}}
 	idx := map[string]int{}
 	for i := 0; i < k; i++ {
 		p := strings.Split(f[2+i], ":")
@@ -403,6 +523,8 @@ func vf09RunCase(line string, g0 int) (res string) {
 		typ := models.AccessTypeIPoE
 		if p[2] == "p" {
 			typ = models.AccessTypePPPoE
+		} else if p[2] == "g" {
+			typ = models.AccessTypeL2GW
 		}
 		if bucketForSession(p[0]) != b {
 			return fmt.Sprintf("BADBUCKET %s impl=%d declared=%d", p[0], bucketForSession(p[0]), b)
@@ -416,99 +538,106 @@ func vf09RunCase(line string, g0 int) (res string) {
 	for i := range mons {
 		mons[i] = vf09Mon{brk: true, stp: true, mono: true}
 	}
-	for _, op := range f[2+k:] {
-		a := strings.Split(op, ",")
+	ops := f[2+k:]
+	racy := false
+	for oi, op := range ops {
 		w.ap.mu.Lock()
 		mark := len(w.ap.calls)
 		w.ap.fail = map[string]bool{}
 		w.ap.mu.Unlock()
-		bad := false
-		geti := func(s string) int {
-			v, err := strconv.ParseUint(s, 10, 32)
-			if err != nil {
-				bad = true
-			}
-			return int(v)
-		}
-		switch a[0] {
-		case "A", "R", "X":
-			if len(a) != 3 {
+		var members [][]string // the notifications of this op (one, or the members of a concurrent group)
+		concurrent := strings.HasPrefix(op, "C/")
+		if concurrent {
+			p := strings.Split(op, "/")
+			if len(p) < 4 || w.setSnap(p[1]) != nil {
 				return "badline"
 			}
-			i := geti(a[1])
-			if bad || i >= k {
-				return "badline"
-			}
-			switch a[0] {
-			case "A":
-				ifx := geti(a[2])
-				sess := w.payload(i, uint32(ifx), models.SessionStateActive)
-				w.c.handleSessionLifecycle(events.Event{Timestamp: time.Now(), Data: &events.SessionLifecycleEvent{
-					AccessType: w.sess[i].typ, Protocol: sess.GetProtocol(), SessionID: w.sess[i].id, State: models.SessionStateActive, Session: sess}})
-			case "R":
-				ifx := geti(a[2])
-				sess := w.payload(i, uint32(ifx), models.SessionStateActive)
-				w.c.handleSessionRestored(events.Event{Timestamp: time.Now(), Data: &events.SessionRestoredEvent{
-					AccessType: w.sess[i].typ, Protocol: sess.GetProtocol(), SessionID: w.sess[i].id, Session: sess,
-					RestoreCause: events.RestoreCauseOsvbngdRestart}})
-			case "X":
-				if err := w.ss.set(a[2]); err != nil {
+			nt := 0
+			for _, m := range p[2:] {
+				a := strings.Split(m, ",")
+				switch a[0] {
+				case "X":
+					a = append(a, "") // snapshot already set
+				case "T":
+					a = append(a, "")
+					nt++
+				case "A", "R":
+					racy = true
+				default:
 					return "badline"
 				}
-				sess := w.payload(i, 0, models.SessionStateReleased)
-				w.c.handleSessionLifecycle(events.Event{Timestamp: time.Now(), Data: &events.SessionLifecycleEvent{
-					AccessType: w.sess[i].typ, Protocol: sess.GetProtocol(), SessionID: w.sess[i].id, State: models.SessionStateReleased, Session: sess}})
+				members = append(members, a)
 			}
-		case "T":
-			if len(a) != 4 {
+			if nt > 1 || (racy && (oi != len(ops)-1 || nt > 0)) {
 				return "badline"
 			}
-			b, mask := geti(a[1]), geti(a[2])
-			if bad || w.ss.set(a[3]) != nil {
+		} else {
+			members = [][]string{strings.Split(op, ",")}
+		}
+		for _, a := range members {
+			if !w.valid(a) {
 				return "badline"
 			}
-			w.ap.mu.Lock()
-			for i := range w.sess {
-				if mask&(1<<uint(i)) != 0 {
-					w.ap.fail[w.sess[i].id] = true
+		}
+		openBefore := make([]bool, k)
+		for j := range w.sess {
+			w.c.acctCacheMu.RLock()
+			_, openBefore[j] = w.c.acctCache[w.sess[j].id]
+			w.c.acctCacheMu.RUnlock()
+		}
+		if concurrent {
+			g := &vf09Gate{n: len(members), open: make(chan struct{})}
+			w.ss.mu.Lock()
+			w.ss.gate = g
+			w.ss.mu.Unlock()
+			var wg sync.WaitGroup
+			errs := make([]string, len(members))
+			for mi := range members {
+				wg.Add(1)
+				go func(mi int) {
+					defer wg.Done()
+					defer g.step() // a handler that returned counts as "cannot overlap any further"
+					defer func() {
+						if r := recover(); r != nil {
+							errs[mi] = fmt.Sprintf("panic %v", r)
+						}
+					}()
+					errs[mi] = w.exec(members[mi])
+				}(mi)
+			}
+			wg.Wait()
+			w.ss.mu.Lock()
+			w.ss.gate = nil
+			w.ss.mu.Unlock()
+			for _, e := range errs {
+				if e != "" {
+					return e
 				}
 			}
-			w.ap.mu.Unlock()
-			w.c.ProcessAccountingBucket(b)
-		case "B":
-			old := w.c
-			w.newComponent()
-			old.StopContext()
-			if _, err := w.c.loadAcctSessions(w.c.Ctx); err != nil {
-				return "loaderr"
+			if g.timedOut {
+				return "gate timed out in " + op
 			}
-		case "P":
-			if len(a) != 2 {
-				return "badline"
-			}
-			now := time.Now()
-			if a[1] == "1" {
-				now = now.Add(2 * pruneAcctOrphansAfter)
-			}
-			w.c.pruneOrphanedAcctEntries(now)
-		default:
-			return "badline"
-		}
-		if bad {
-			return "badline"
+		} else if e := w.exec(members[0]); e != "" {
+			return e
 		}
 		if !vf09Quiesce(g0) {
 			return "hang after " + op
 		}
+		// Everything the component spawned has finished, but the race detector only knows that through a
+		// synchronisation edge: the spawned goroutines end in the provider (ap.mu) or the store (db.mu), so
+		// touching both here orders them before the next notification.  Races *inside* a concurrent group
+		// stay visible.
+		w.db.mu.Lock()
+		w.db.mu.Unlock() //nolint
 		w.ap.mu.Lock()
 		cs := append([]vf09Call(nil), w.ap.calls[mark:]...)
 		w.ap.mu.Unlock()
-		sort.SliceStable(cs, func(x, y int) bool { return idx[cs[x].sid] < idx[cs[y].sid] })
 		var toks []string
-		for _, c := range cs {
+		tokOf := map[int]string{}
+		for ci, c := range cs {
 			i, known := idx[c.sid]
 			if !known {
-				toks = append(toks, "UNKNOWNSID")
+				tokOf[ci] = "UNKNOWNSID"
 				continue
 			}
 			t := fmt.Sprintf("%c%d:%s", c.kind, i, vf09C4(c.rx, c.tx, c.rp, c.tp))
@@ -519,21 +648,113 @@ func vf09RunCase(line string, g0 int) (res string) {
 					t += ":f"
 				}
 			}
-			toks = append(toks, t)
+			tokOf[ci] = t
+		}
+		order := make([]int, len(cs))
+		for i := range order {
+			order[i] = i
+		}
+		// sequential op: by session, arrival order within a session; concurrent group: by session, then token text
+		sort.SliceStable(order, func(x, y int) bool {
+			cx, cy := cs[order[x]], cs[order[y]]
+			if idx[cx.sid] != idx[cy.sid] {
+				return idx[cx.sid] < idx[cy.sid]
+			}
+			return concurrent && tokOf[order[x]] < tokOf[order[y]]
+		})
+		for _, ci := range order {
+			toks = append(toks, tokOf[ci])
+		}
+		if racy {
+			// outcome depends on the interleaving; what every interleaving of the handlers must satisfy:
+			// each Stop consumes one accounting entry (the one open before, or one created by an Active/Restored
+			// of the group) and answers one Released; each Start opens an entry that did not exist
+			var bad []string
+			for j := range w.sess {
+				na, nr, nx, nS, nE := 0, 0, 0, 0, 0
+				for _, a := range members {
+					if v, _ := strconv.Atoi(a[1]); v == j {
+						switch a[0] {
+						case "A":
+							na++
+						case "R":
+							nr++
+						case "X":
+							nx++
+						}
+					}
+				}
+				for _, c := range cs {
+					if idx[c.sid] == j {
+						switch c.kind {
+						case 'S':
+							nS++
+						case 'E':
+							nE++
+						}
+					}
+				}
+				ob := 0
+				if openBefore[j] {
+					ob = 1
+				}
+				maxE, maxS := ob+na+nr, 1-ob+nx
+				if nx < maxE {
+					maxE = nx
+				}
+				if na < maxS {
+					maxS = na
+				}
+				nb := 0
+				w.c.bucketMu.RLock()
+				for _, l := range w.c.buckets {
+					for _, x := range l {
+						if x == w.sess[j].id {
+							nb++
+						}
+					}
+				}
+				w.c.bucketMu.RUnlock()
+				if nS > maxS || nE > maxE || nb > 1 {
+					bad = append(bad, fmt.Sprintf("s%d:starts=%d/%d,stops=%d/%d,buckets=%d", j, nS, maxS, nE, maxE, nb))
+				}
+			}
+			if len(bad) == 0 {
+				groups = append(groups, "{ok}")
+			} else {
+				groups = append(groups, "{BAD "+strings.Join(bad, " ")+"}")
+			}
+			break
 		}
 		groups = append(groups, "["+strings.Join(toks, " ")+"]")
 		for j := range mons {
 			var mine []vf09Call
-			for _, c := range cs {
-				if idx[c.sid] == j {
-					mine = append(mine, c)
+			for _, ci := range order {
+				if idx[cs[ci].sid] == j {
+					mine = append(mine, cs[ci])
 				}
 			}
-			kind := byte('o')
-			if (a[0] == "A" || a[0] == "R" || a[0] == "X") && geti(a[1]) == j {
-				kind = a[0][0]
+			// the notification kinds addressed to j by this op, Released first
+			fed := false
+			for _, a := range members {
+				if a[0] == "X" {
+					if v, _ := strconv.Atoi(a[1]); v == j {
+						mons[j].event('X', mine)
+						mine, fed = nil, true
+					}
+				}
 			}
-			mons[j].event(kind, mine)
+			for _, a := range members {
+				if a[0] == "A" || a[0] == "R" {
+					if v, _ := strconv.Atoi(a[1]); v == j {
+						mons[j].event(a[0][0], mine)
+						mine, fed = nil, true
+					}
+				}
+			}
+			if !fed || len(mine) > 0 {
+				mons[j].event('o', mine)
+			}
 		}
 	}
 	var vs []string
@@ -546,7 +767,111 @@ func vf09RunCase(line string, g0 int) (res string) {
 	for j := range mons {
 		vs = append(vs, fmt.Sprintf("v%d=%s%s%s", j, bit(mons[j].brk), bit(mons[j].stp), bit(mons[j].mono)))
 	}
-	return strings.Join(groups, " ") + " ; " + w.dump() + " ; " + strings.Join(vs, " ")
+	d := "racy"
+	if !racy {
+		d = w.dump()
+	}
+	return strings.Join(groups, " ") + " ; " + d + " ; " + strings.Join(vs, " ")
+}
+
+// valid checks the shape of one notification: A,i,ifx  R,i,ifx  X,i,snap  T,bucket,mask,snap  B  P,0|1
+func (w *vf09World) valid(a []string) bool {
+	num := func(s string) (int, bool) {
+		v, err := strconv.ParseUint(s, 10, 32)
+		return int(v), err == nil
+	}
+	switch a[0] {
+	case "A", "R", "X":
+		if len(a) != 3 && !(a[0] != "X" && len(a) == 4) {
+			return false
+		}
+		i, ok := num(a[1])
+		if !ok || i >= len(w.sess) {
+			return false
+		}
+		if a[0] != "X" {
+			_, ok = num(a[2])
+			if ok && len(a) == 4 {
+				_, ok = num(a[3])
+			}
+		}
+		return ok
+	case "T":
+		if len(a) != 4 {
+			return false
+		}
+		_, ok1 := num(a[1])
+		_, ok2 := num(a[2])
+		return ok1 && ok2
+	case "B":
+		return len(a) == 1
+	case "P":
+		return len(a) == 2
+	}
+	return false
+}
+
+// exec delivers one notification to the real component; "" = done.  An empty snapshot field means "keep the
+// snapshot that is set" (members of a concurrent group share one).
+func (w *vf09World) exec(a []string) string {
+	num := func(s string) int {
+		v, _ := strconv.ParseUint(s, 10, 32)
+		return int(v)
+	}
+	hfx := func(a []string) uint32 {
+		if len(a) > 3 {
+			return uint32(num(a[3]))
+		}
+		return 0
+	}
+	switch a[0] {
+	case "A":
+		i := num(a[1])
+		sess := w.payload(i, uint32(num(a[2])), hfx(a), models.SessionStateActive)
+		w.c.handleSessionLifecycle(events.Event{Timestamp: time.Now(), Data: &events.SessionLifecycleEvent{
+			AccessType: w.sess[i].typ, Protocol: sess.GetProtocol(), SessionID: w.sess[i].id, State: models.SessionStateActive, Session: sess}})
+	case "R":
+		i := num(a[1])
+		sess := w.payload(i, uint32(num(a[2])), hfx(a), models.SessionStateActive)
+		w.c.handleSessionRestored(events.Event{Timestamp: time.Now(), Data: &events.SessionRestoredEvent{
+			AccessType: w.sess[i].typ, Protocol: sess.GetProtocol(), SessionID: w.sess[i].id, Session: sess,
+			RestoreCause: events.RestoreCauseOsvbngdRestart}})
+	case "X":
+		i := num(a[1])
+		if a[2] != "" && w.setSnap(a[2]) != nil {
+			return "badline"
+		}
+		sess := w.payload(i, 0, 0, models.SessionStateReleased)
+		w.c.handleSessionLifecycle(events.Event{Timestamp: time.Now(), Data: &events.SessionLifecycleEvent{
+			AccessType: w.sess[i].typ, Protocol: sess.GetProtocol(), SessionID: w.sess[i].id, State: models.SessionStateReleased, Session: sess}})
+	case "T":
+		b, mask := num(a[1]), num(a[2])
+		if a[3] != "" && w.setSnap(a[3]) != nil {
+			return "badline"
+		}
+		w.ap.mu.Lock()
+		for i := range w.sess {
+			if mask&(1<<uint(i)) != 0 {
+				w.ap.fail[w.sess[i].id] = true
+			}
+		}
+		w.ap.mu.Unlock()
+		w.c.ProcessAccountingBucket(b)
+	case "B":
+		old := w.c
+		w.newComponent()
+		old.StopContext()
+		if _, err := w.c.loadAcctSessions(w.c.Ctx); err != nil {
+			return "loaderr"
+		}
+	case "P":
+		now := time.Now()
+		if a[1] == "1" {
+			now = now.Add(2 * pruneAcctOrphansAfter)
+		}
+		w.c.pruneOrphanedAcctEntries(now)
+	}
+	return ""
 }
 
 func TestVerifC09(t *testing.T) {
@@ -571,12 +896,33 @@ func TestVerifC09(t *testing.T) {
 		if !vf09Quiesce(base) {
 			base = runtime.NumGoroutine()
 		}
+		// a history with a concurrent group is run several times: the verdict must not depend on the scheduler
+		reps := 1
+		if strings.Contains(line, " C/") {
+			reps = 5
+		}
 		done := make(chan string, 1)
-		go func() { done <- vf09RunCase(line, base+1) }()
+		go func() {
+			first := ""
+			for r := 0; r < reps; r++ {
+				if r > 0 && !vf09Quiesce(base+1) {
+					done <- "hang between repetitions"
+					return
+				}
+				res := vf09RunCase(line, base+1)
+				if r == 0 {
+					first = res
+				} else if res != first {
+					done <- "NONDETERMINISTIC run0=" + first + " run" + strconv.Itoa(r) + "=" + res
+					return
+				}
+			}
+			done <- first
+		}()
 		select {
 		case r := <-done:
 			fmt.Fprintln(wr, r)
-		case <-time.After(60 * time.Second):
+		case <-time.After(90 * time.Second):
 			fmt.Fprintln(wr, "hang")
 		}
 	}
